@@ -422,7 +422,7 @@ func c12(c *Ctx) {
 			}
 		}
 		// inputs
-		nIn := c.N(150, 1500)
+		nIn := c.N(150, 4000)
 		var inputs []string
 		inputs = append(inputs, "", "\xef\xbb\xbf", "\n", "\xef\xbb\xbf\n")
 		for i := 0; i < nIn; i++ {
@@ -466,7 +466,7 @@ func c12(c *Ctx) {
 			}
 			c.Evaluations++
 			key := ""
-			if len(obs) > 4 && !isASCII(in) || strings.Contains(in, "{") && l.name == "tm" {
+			if len(obs) > 4 && !lexIsASCII(in) || strings.Contains(in, "{") && l.name == "tm" {
 				key = l.name + in
 			}
 			if key != "" {
@@ -498,7 +498,7 @@ func c12(c *Ctx) {
 var c12SkipFrags = []string{"{", "}", "\"", "'", "\\", "\\\"", "\\'", "/", "/*", "*/", "//", "\n", "x", " ", "\"}\"", "'{'", "/* } */", "// }\n", "{}", "\\\\", "é", "\xff", "*", "/**/", "/*/", "\"\\\"}\"", "a\nb"}
 
 func c12Skip(c *Ctx, v lexVariant) {
-	n := c.N(1500, 20000)
+	n := c.N(1500, 60000)
 	for i := 0; i < n; i++ {
 		var sb strings.Builder
 		if c.Rng.Intn(10) == 0 {
@@ -552,7 +552,7 @@ func c12Skip(c *Ctx, v lexVariant) {
 
 func c12Generated(c *Ctx, v lexVariant) {
 	r := c.Rng
-	nG := c.N(10, 60)
+	nG := c.N(10, 120)
 	b, err := newLexBatch()
 	if err != nil {
 		c.Notes = append(c.Notes, "cannot create scratch dir: "+err.Error())
